@@ -43,23 +43,26 @@ LoadFails(bpp, order, buf, it) ==
   ELSE IF InRange(bpp, buf, i) THEN {"load_layout"} ELSE {"oob_load_not_none"}
 
 \* One run of the iterator: script and observations, judged against the sequence
-\* load(0), load(1), ... .  Result: [pos, codes, step] (step = first failing step, 0 = none).
+\* load(0), load(1), ... .  Result: [pos, codes, step, bad] (step = first failing step, 0 = none;
+\* bad = the distinct observations of all failing steps).
 IterStep(bpp, order, buf, N, acc, sc, ob, k) ==
   IF sc[1] = 2
   THEN LET rem == Remaining(N, acc.pos)
            c == (IF IxVal4(ob[1], ob[2], ob[3], ob[4]) <= rem THEN {} ELSE {"size_hint_lower"})
            \cup (IF ob[5] = 0 \/ IxVal4(ob[6], ob[7], ob[8], ob[9]) >= rem THEN {} ELSE {"size_hint_upper"})
        IN [pos |-> acc.pos, codes |-> acc.codes \cup c,
-           step |-> IF acc.step = 0 /\ c # {} THEN k ELSE acc.step]
+           step |-> IF acc.step = 0 /\ c # {} THEN k ELSE acc.step,
+           bad |-> IF c # {} THEN acc.bad \cup {ob} ELSE acc.bad]
   ELSE LET st == IF sc[1] = 0 THEN AbsNext(N, acc.pos)
                  ELSE AbsNth(N, acc.pos, IxVal4(sc[2], sc[3], sc[4], sc[5]))
            c == IF ob = Load(bpp, order, buf, st.at) THEN {}
                 ELSE {IF sc[1] = 0 THEN "next_item" ELSE "nth_item"}
        IN [pos |-> st.pos, codes |-> acc.codes \cup c,
-           step |-> IF acc.step = 0 /\ c # {} THEN k ELSE acc.step]
+           step |-> IF acc.step = 0 /\ c # {} THEN k ELSE acc.step,
+           bad |-> IF c # {} THEN acc.bad \cup {ob} ELSE acc.bad]
 IterRun(bpp, order, buf, script, obs) ==
   LET N == PixelCount(bpp, Len(buf)) IN
-  IF Len(obs) # Len(script) THEN [pos |-> 0, codes |-> {"malformed_run"}, step |-> 0]
+  IF Len(obs) # Len(script) THEN [pos |-> 0, codes |-> {"malformed_run"}, step |-> 0, bad |-> {}]
   ELSE FoldLeftDomain(LAMBDA acc, k : IterStep(bpp, order, buf, N, acc, script[k], obs[k], k),
-                      [pos |-> 0, codes |-> {}, step |-> 0], script)
+                      [pos |-> 0, codes |-> {}, step |-> 0, bad |-> {}], script)
 =============================================================================
